@@ -1140,4 +1140,26 @@ Section ParserFuel.
     - constructor; [discriminate|apply IH; [exact Hn|lia]].
     - constructor; [intros E; apply H1; inversion E; reflexivity|apply IH; [exact Hn|lia]].
   Qed.
+
+  (* successful items are paid for in input: an iteration cannot return more
+     values than there are events left *)
+  Definition is_okb {A} (r : pres A) : bool := match r with POk _ => true | PErr _ => false end.
+  Theorem iterate_values_count fuel n k : forall s, (2 * n + 3 <= fuel)%nat -> (rem (rd s) <= n)%nat ->
+    (length (filter is_okb (iterate_values ro alpha fast std_parse fuel k s)) <= rem (rd s))%nat.
+  Proof.
+    induction k as [|k IH]; intros s Hn Hs; cbn [iterate_values]; [cbn; lia|].
+    destruct (proj1 (fuel_values fuel) n Hn s Hs) as [[H1 H2] H3]. unfold item_strict in H3.
+    destruct (Parser.next_value ro alpha fast std_parse fuel s) as [[[v|]|e] s1]; cbn [fst snd filter is_okb length] in *; [|lia|].
+    - specialize (IH s1 Hn ltac:(lia)). lia.
+    - specialize (IH s1 Hn ltac:(lia)). lia.
+  Qed.
+  Theorem iterate_datums_count fuel n k : forall s, (2 * n + 3 <= fuel)%nat -> (rem (rd s) <= n)%nat ->
+    (length (filter is_okb (iterate_datums ro alpha fast std_parse fuel k s)) <= rem (rd s))%nat.
+  Proof.
+    induction k as [|k IH]; intros s Hn Hs; cbn [iterate_datums]; [cbn; lia|].
+    destruct (proj1 (fuel_datums fuel) n Hn s Hs) as [[H1 H2] H3]. unfold item_strict in H3.
+    destruct (Parser.next_datum ro alpha fast std_parse fuel s) as [[[v|]|e] s1]; cbn [fst snd filter is_okb length] in *; [|lia|].
+    - specialize (IH s1 Hn ltac:(lia)). lia.
+    - specialize (IH s1 Hn ltac:(lia)). lia.
+  Qed.
 End ParserFuel.
